@@ -96,6 +96,8 @@ def gen_plan(wl, fr, idx):
     plan['array3d'] = {'shape': shape,
                        'specs': [gen_signal_spec(wl, band, 20 + k) for k in range(shape[0] * shape[1])]}
     plan['dicts'] = _gen_dicts(wl, band)
+    # a per-row option list for the 2-D array, kept by the caller and reused as one object
+    plan['dicts']['CKL0'] = ['@CK%d' % wl.randrange(3) for _ in range(n2)]
     r = wl.random()
     if r < 0.55:
         plan['config'] = 'sequential'
@@ -223,7 +225,7 @@ def _gen_session(wl, plan, s, plots):
             ops.append({'fn': wl.choice(('durations', 'extvolt', 'symmetry', 'bandamp')),
                         'table': t['name'], 'sig': t['sig']})
         elif r < 0.74:
-            ck = wl.choice((None, 'CK0', 'CK1', 'CK2', 'list'))
+            ck = wl.choice((None, 'CK0', 'CK1', 'CK2', 'list', 'CKL0', 'CKL0'))
             axis = wl.choice((0, 0, None))
             if ck == 'list':
                 ck = ['CK%d' % wl.randrange(3) for _ in range(n2)]
